@@ -27,7 +27,7 @@ type Case struct {
 }
 
 func genCase(t *rapid.T, thorough bool) Case {
-	o := gen.Opts{MinTips: 4, MaxTips: 12, BigTips: 30, NoOver64: true, Rooted: -1, MaxDeg: 2, Lens: gen.AnyPresence, LenVals: gen.Dyadic, Sups: gen.AnyPresence, InnerNames: gen.AnyPresence, Comments: rapid.Bool().Draw(t, "comments")}
+	o := gen.Opts{MinTips: 4, MaxTips: 12, BigTips: 30, NoOver64: true, Rooted: -1, MaxDeg: 2, Lens: gen.AnyPresence, LenVals: gen.Dyadic, Sups: gen.AnyPresence, Pvals: true, InnerNames: gen.AnyPresence, Comments: rapid.Bool().Draw(t, "comments")}
 	if thorough {
 		o.BigTips = 100
 	}
@@ -260,7 +260,7 @@ func run(c Case) (info, error) {
 func TestC17NNI(t *testing.T) {
 	h.Run(t, h.Spec[Case]{
 		Property: "C17", Name: "nni", Quick: 6000, Thorough: 320000,
-		Rule: "binary trees (4..12 tips, 5% up to 30/100; rooted with a root of degree 2 or unrooted; lengths, supports, inner names, comments), unrooted ones optionally re-rooted at another inner node first; full enumeration of NNIRearranger: count = 2 x branches whose ends both have three neighbours (= 2(n-3) unrooted), after Apply: structural invariant, same tips, exactly one split out and one in, lengths of all other splits unchanged, canonical topology different from the original and from every other neighbour, second Apply is a no-op; Undo restores byte-identical text, Undo without Apply is a no-op; text unchanged after the enumeration; in half of the cases all proposals of a second enumeration are kept and applied / undone after it has returned (same neighbours in the same order); 5% of the cases compare `gotree nni` with the library's list; non-trivial = >= 6 tips",
+		Rule: "binary trees (4..12 tips, 5% up to 30/100; rooted with a root of degree 2 or unrooted; lengths, supports with p-values, inner names, comments), unrooted ones optionally re-rooted at another inner node first; full enumeration of NNIRearranger: count = 2 x branches whose ends both have three neighbours (= 2(n-3) unrooted), after Apply: structural invariant, same tips, exactly one split out and one in, lengths of all other splits unchanged, canonical topology different from the original and from every other neighbour, second Apply is a no-op; Undo restores byte-identical text, Undo without Apply is a no-op; text unchanged after the enumeration; in half of the cases all proposals of a second enumeration are kept and applied / undone after it has returned (same neighbours in the same order); 5% of the cases compare `gotree nni` with the library's list; non-trivial = >= 6 tips",
 		Gen: genCase, Check: check,
 		Classify: func(c Case) (bool, []string) {
 			var l []string
